@@ -84,6 +84,14 @@ ResolveWith(v, I) ==
   ELSE 0                                                                             \* 6 nothing
 Resolve(v) == ResolveWith(v, ins)
 
+\* Element transforms (hide / rename) may say what their keys are: with key = "alias" a key
+\* denotes the item with that alias and nothing else, with key = "subvar_id" the item with
+\* that sub-variable id and nothing else (no cascade).
+ResolveKeyed(v, key) ==
+  IF v.t # "s" THEN 0
+  ELSE IF key = "alias" THEN (IF \E k \in Items : alias[k] = v.s THEN ItemWith(alias, v.s) ELSE 0)
+  ELSE IF \E k \in Items : svid[k] = v.s THEN ItemWith(svid, v.s) ELSE 0
+
 \* which rule decided (for the feature histogram); 7 = rule 2b
 RuleWith(v, I) ==
   IF v.t = "s" /\ \E k \in Items : alias[k] = v.s THEN 1
@@ -137,7 +145,9 @@ ThmDtIdAndValueAgree ==
 EmitInv ==
   PrintT(ToJson([ alias |-> alias, svid |-> svid, eid |-> eid, ins |-> ins,
                   refs |-> {[v |-> v, item |-> Resolve(v), rule |-> Rule(v),
-                             plain |-> ResolveWith(v, {}), plainrule |-> RuleWith(v, {})]
+                             plain |-> ResolveWith(v, {}), plainrule |-> RuleWith(v, {}),
+                             kalias |-> ResolveKeyed(v, "alias"),
+                             ksvid |-> ResolveKeyed(v, "subvar_id")]
                             : v \in Candidates},
                   dtrefs |-> {[v |-> v, item |-> DtResolve(v)] : v \in DtCandidates} ]))
 =============================================================================
